@@ -18,6 +18,22 @@ CLAIMED = {
     note=TB + "lxml's feed semantics (which children are in the tree / complete after a feed) is the model's assumption, validated "
          "by the correspondence only; foreign elements are compared by tag and attributes and are not in the Gallina model.",
     technique="Coq proof over all chunkings of a feed model + exhaustive 2-chunk correspondence", ref='5 C06'),
+ 'C08': dict(
+    text="The per-attribute codec table of every ontology element class (how an attribute is written, when it is left out, how it is read "
+         "back and stored; jointly dropped attribute groups; per-type tables for relations) is DERIVED on every run from the ast of "
+         "generate_xml / create_from_xml / __init__ by a fail-closed translator. Theorems on these regenerated tables: for every class "
+         "and every definition of the stored shape whose jointly dropped attributes are at their defaults, reading back what was "
+         "written gives the definition again (all attribute values, integers of any size via the int() model), the second cycle "
+         "writes identical attributes, child order depends on the key set only; the pinned association class (empty display names) "
+         "is refuted. Tied further by T2: the stored dictionary, generate_xml output and create_from_xml input of ~1500 real elements "
+         "per run against encode/decode of the tables; and an oracle: independent XML-level generator of schema-valid ontologies "
+         "(optional attributes absent / present / at default, boundary lengths, whitespace, every relation type, parents, attachments, "
+         "associations, version/sequence/timespan), the repository corpus and API-built ontologies, judged by the official RelaxNG "
+         "schema, an independent reader, byte identity of the second cycle and ==.",
+    note=TB + "the element tree structure beyond attributes (sections, nesting) and lxml's serialisation are covered by the oracle and "
+         "correspondence only; relation concept / description / predicate attributes are modelled as written-as-is; constructor "
+         "fallbacks for empty strings are outside the model (the schema excludes empty values).",
+    technique="Coq proof on codec tables regenerated from the source ast + element-level correspondence + schema/independent-reader oracle", ref='5 C08'),
  'C10': dict(
     text="Theorems, over the same generic node model on which the comparison (C09) is decided: whenever the model accepts a newer object "
          "type / event type definition, every value valid for the old object type is valid for the new one (enum extension, old|more "
